@@ -12,7 +12,7 @@ EXPLANATION = (
     "'skip', seeded constant propagation shows the entry is not kept; both walkers consult the same predicate set; "
     "(ROOTS) depth-0 entries bypass the predicates in both; (OPTIONS) builder fields are consumed by both walkers "
     "with two documented exceptions and none is dead; (PRUNE) a skipped directory is not descended. Equality of the "
-    "reported sets for all trees is not decided.")
+    "reported sets for all trees is not decided. (ARGS) both walkers feed each skip predicate from the same sources (entry path, the resolved entry's metadata, the configured limits).")
 NOT_DECIDED = [
     "that walkdir's depth/device/loop handling equals the hand-written parallel one",
     "exact-once delivery under concurrency (C07)",
